@@ -240,6 +240,25 @@ def run_check(pid, tier, seed, replay, t0, skip_proofs=False):
                 nops += n2
                 classes |= set((key,) + c for c in c2)
                 log('[%s] build %s/%s: %d scenarios, %d findings' % (pid, ','.join(key[0]) or 'default', key[1], len(lines2), len(f2)))
+    # ---- GH (tools/vlib.py gh_search): theorems failed and the scenarios found no failing input: search for a
+    # concrete input on which a regenerated definition and the hand model differ; replay it on the implementation
+    gh_model, gh_nw, gh_nr = [], 0, 0
+    failed_thms = [t for t, _ in aud['failed']]
+    if failed_thms and not replay and not os.environ.get('VERIF_NO_GH') and not any(f.kind == 'violation' for f in findings):
+        gh_cmp = lambda line, h, m: compare_all(prop, [line], [h], [m])[0]
+        gh_bin = main_bin if drv_ok else None
+        try:
+            wit = vlib.gh_search(failed_thms, seed, 120 if tier == 'quick' else 400, hints=aud.get('culprits', []),
+                                 confirm=(lambda w: bool(vlib.gh_replay([w], gh_bin, gh_cmp)[0])) if gh_bin else None)
+        except Exception as ex:
+            log('[%s] gh search failed: %r' % (pid, ex))
+            wit = None
+        if wit:
+            gh_nw = len(wit)
+            gv, gh_model = vlib.gh_replay(wit, gh_bin, gh_cmp)
+            gh_nr = len(gv)
+            findings += gv
+        log('[%s] gh: %s witnesses, %d replayed as violations' % (pid, 'no search' if wit is None else len(wit), gh_nr))
     # ---- verdict
     viol = [f for f in findings if f.kind == 'violation']
     fid = [f for f in findings if f.kind != 'violation']
@@ -287,6 +306,8 @@ def run_check(pid, tier, seed, replay, t0, skip_proofs=False):
                 fo.write('# property=%s kind=%s signature=%s\n' % (pid, kind, sig))
                 fo.write('# implementation=%s model=%s reference=%s (at op %d of the unshrunk scenario)\n' % (f.h, f.m3, f.m1, f.idx))
                 fo.write('# %d scenarios with this signature; shrunk from: %s\n' % (len(group), f.line[:500]))
+                if getattr(f, 'gh', None):
+                    fo.write('# found by the generated-vs-hand search: `%s` -> translated %s, model %s\n' % (f.gh[1][:300], f.gh[2][:200], f.gh[3][:200]))
                 fo.write(line + '\n')
             out_lines.append('VIOLATION property=%s replay=%s%s' % (pid, os.path.relpath(path, ROOT), suffix))
             exit_code = 1
@@ -304,6 +325,11 @@ def run_check(pid, tier, seed, replay, t0, skip_proofs=False):
                 for b in broken:
                     fo.write(b + '\n')
                 fo.write('# searched %d scenarios (%d operations) without finding a failing input\n' % (nlines, nops))
+                if gh_model:
+                    fo.write('# model-level witnesses: the translated code and the model differ on these inputs (`GH` requests of\n'
+                             '# lean/GH.lean: `<translated> || <model>`); they could not be replayed on the implementation\n')
+                    for w, req, note in gh_model:
+                        fo.write('%s\n#   translated: %s\n#   model:      %s\n#   %s\n' % (w[1], w[2][:400], w[3][:400], note))
             out_lines.append('VIOLATION property=%s replay=%s no-failing-input-found' % (pid, os.path.relpath(path, ROOT)))
             exit_code = 1
     wall = time.time() - t0
@@ -328,6 +354,8 @@ def run_check(pid, tier, seed, replay, t0, skip_proofs=False):
         violations_impl_vs_reference=len(viol),
         disagreements_impl_vs_model=len(fid),
         broken_obligations=broken,
+        gh_witnesses=gh_nw,
+        gh_replayed=gh_nr,
     )
     vlib.write_evidence(pid, tier, seed, cov, wall, len(viol), [
         'theorems are about the Lean model; the model is tied to the code by the translator (tables, constants, match arms) and by this differential run',
